@@ -170,7 +170,7 @@ def cover_of(s):
             out.append((key, 1 << (j % 8)))
     for m in re.finditer(r"bit (L[-+]\d+|\d+)\.(\d) = ", s):
         out.append((m.group(1), 1 << int(m.group(2))))
-    for m in re.finditer(r"bytes_eq \[(\d+)\.\.(\d+)\)", s):
+    for m in re.finditer(r"(?<![\w@\]])\[(\d+)\.\.(\d+)\)", s):        # a constant region of the input, used whole
         for k in range(int(m.group(1)), int(m.group(2))):
             out.append((str(k), 255))
     return out
